@@ -226,6 +226,7 @@ type runner[C any] struct {
 	lastFail     *C
 	lastFailViol []Violation
 	sampleByCls  map[string]int
+	samplePhase  map[string]int
 }
 
 func hashKey(s string) uint64 {
@@ -330,7 +331,7 @@ func Run[C any](t *testing.T, s Spec[C]) {
 	if s.Level == "" {
 		s.Level = "exploration"
 	}
-	r := &runner[C]{spec: s, env: env, ledger: ledger, hashes: map[uint64]struct{}{}, seenSig: map[string]bool{}, sampleByCls: map[string]int{}}
+	r := &runner[C]{spec: s, env: env, ledger: ledger, hashes: map[uint64]struct{}{}, seenSig: map[string]bool{}, sampleByCls: map[string]int{}, samplePhase: map[string]int{}}
 	r.p = Partial{Property: s.ID, Shard: env.Shard, Classes: map[string]int{}, OutOfClaim: map[string]int{}, Known: map[string]int{}, KnownWhat: map[string]string{}, Rule: s.Rule, Level: s.Level, Assumptions: s.Assumptions}
 	if env.OutDir != "" {
 		r.curFile = filepath.Join(env.OutDir, fmt.Sprintf("shard-%d.current", env.Shard))
@@ -483,7 +484,7 @@ func (r *runner[C]) evalFrom(c C, phase, file string) []Violation {
 		h := hashKey(key)
 		if _, dup := r.hashes[h]; !dup {
 			r.hashes[h] = struct{}{}
-			r.sample(c, o)
+			r.sample(c, o, phase)
 		}
 	}
 	if len(bad) > 0 && phase != "random-noreport" {
@@ -492,15 +493,21 @@ func (r *runner[C]) evalFrom(c C, phase, file string) []Violation {
 	return bad
 }
 
-func (r *runner[C]) sample(c C, o Outcome) {
-	if len(r.p.Samples) >= r.spec.MaxSamples {
+func (r *runner[C]) sample(c C, o Outcome, phase string) {
+	// quota per phase so that the random tier is represented too
+	quota := map[string]int{"corpus": 1, "enum": r.spec.MaxSamples / 2, "random-noreport": r.spec.MaxSamples, "random": r.spec.MaxSamples}[phase]
+	if r.spec.Gen == nil {
+		quota = r.spec.MaxSamples
+	}
+	if r.samplePhase[phase] >= quota || len(r.p.Samples) >= r.spec.MaxSamples+1 {
 		return
 	}
-	cls := strings.Join(o.Classes, ",")
-	if r.sampleByCls[cls] >= 2 {
+	cls := phase + ":" + strings.Join(o.Classes, ",")
+	if r.sampleByCls[cls] >= 1 {
 		return
 	}
 	r.sampleByCls[cls]++
+	r.samplePhase[phase]++
 	var s any = c
 	if o.Sample != nil {
 		s = o.Sample
